@@ -92,7 +92,11 @@ def run(ctx):
                 ctx.ok("R16.a", f, f.node, "%s derives 'type' from the class name; reached only for %s" % (m, sorted(names)))
     ps = ctx.repo.method(SER, "param_schema")
     gm = ctx.repo.method(SER, "_get_method")
-    ok = "ptype.lower()+'_'+suffix" in norm(gm.node).replace(" ", "") and any(isinstance(c, ast.Call) and norm(c.func) == "cls._get_method" for c in ast.walk(ps.node))
+    lowers = any(isinstance(c, ast.Call) and isinstance(c.func, ast.Attribute) and c.func.attr == "lower" for c in ast.walk(gm.node))
+    looks_up = any(isinstance(c, ast.Call) and norm(c.func) == "getattr" and norm(c.args[0]) == gm.params[0] for c in ast.walk(gm.node))
+    suffix = any(isinstance(c, ast.Call) and norm(c.func) == "cls._get_method" and len(c.args) == 2 and isinstance(c.args[1], ast.Constant) and c.args[1].value == "schema"
+                 for c in ast.walk(ps.node))
+    ok = lowers and looks_up and suffix
     (ctx.ok if ok else ctx.fail)("R16.a", gm, gm.node, "dispatch by <lower class name>_schema" if ok else "schema dispatch no longer resolves <lower class name>_schema")
 
     # ---------------------------------------------------------------- R16.b
